@@ -225,6 +225,18 @@ def gen_link(rng, blocks, opts):
                     link["edges"].append((x, y, {"linktype": label} if label else {}))
         if not link["edges"]:
             return None
+        if use_global and style == "num" and len(orders) >= 2 and rng.random() < opts.get("p_edge_only_atoms", 0.0):
+            # one more explicit edge, between two atoms that no interaction of the link names
+            ends = []
+            for p_ in (0, 1):
+                common = set.intersection(*[{a["name"] for a in blocks[rn]["atoms"]} for rn in rsets[p_]])
+                free = sorted(nm for nm in common if (str(orders[p_]), nm) not in latoms)
+                ends.append((str(orders[p_]), rng.choice(free)) if free else None)
+            if all(ends):
+                for p_, key in zip((0, 1), ends):
+                    latoms[key] = {"order": orders[p_], "name": key[1], "attrs": {}, "replace": None, "remove": False}
+                link["edges"].append((ends[0], ends[1], {"linktype": label} if label else {}))
+                link["edge_only_atoms"] = True
     # replace: change an attribute that is never used for matching (charge / mass), or remove the atom
     if rng.random() < opts.get("p_replace", 0.15):
         key = rng.choice(sorted(latoms))
